@@ -109,10 +109,10 @@ impl YamlConverter {
                     continue;
                 }
             };
-            if key == "<<" {
-                if let serde_yaml::Value::Mapping(merge_map) = value {
-                    self.merge_mapping_keys(fs, merge_map)?;
-                }
+            // Only a mapping can be merged, anything else under this key is an
+            // ordinary field.
+            if let ("<<", serde_yaml::Value::Mapping(merge_map)) = (key.as_str(), value) {
+                self.merge_mapping_keys(fs, merge_map)?;
             } else {
                 fs.push((key, Rc::new(self.convert_yaml_val(value)?)));
             }
